@@ -267,16 +267,25 @@ def _run_history(job):
             continue
         if op == "add_repeat":
             k = sum(1 for e in trace if e["op"] == "add_repeat") + 1
-            s.add_child(create_survey_element_from_dict({"type": "repeat", "name": f"rp{k}", "label": lab(f"RP{k}"), "children": [
-                {"type": "text", "name": f"b{k}", "label": lab(f"B{k}")}, {"type": "calculate", "name": f"c{k}", "bind": {"calculate": "${b%d} + 1" % k}}]}))
+            rp = create_survey_element_from_dict({"type": "repeat", "name": f"rp{k}", "label": lab(f"RP{k}"), "children": [
+                {"type": "text", "name": f"b{k}", "label": lab(f"B{k}")}, {"type": "calculate", "name": f"c{k}", "bind": {"calculate": "${b%d} + 1" % k}}]})
+            if job.get("inspect"):
+                rp.children[0].get_xpath()      # looking at a question of a detached section (not at the section itself) must not stick either
+            s.add_child(rp)
             trace.append({"op": op, "name": arg})
             continue
         if op == "move":
             # re-parenting through the public API: the group leaves the root and is attached below a new group
             del s.children[next(i for i, c in enumerate(s.children) if c is grp)]      # (list.remove compares by content, which validates)
             h = create_survey_element_from_dict({"type": "group", "name": "h", "label": lab("H"), "children": []})
-            s.add_child(h)
-            h.add_child(grp)
+            if job.get("inspect"):
+                # the new parent is filled while still detached, a question below it is looked at, and only then it is attached
+                h.add_child(grp)
+                grp.children[0].get_xpath()
+                s.add_child(h)
+            else:
+                s.add_child(h)
+                h.add_child(grp)
             trace.append({"op": op, "name": arg})
             continue
         if op == "mark":
